@@ -51,6 +51,16 @@ fn gen(d: usize) -> Vec<P> {
     out
 }
 
+/// the same policy with the children of every and / or node exchanged and the children of every threshold reversed
+fn mirrored(p: &P) -> P {
+    match p {
+        Policy::And { left, right } => Policy::And { left: Arc::new(mirrored(right)), right: Arc::new(mirrored(left)) },
+        Policy::Or { left, right } => Policy::Or { left: Arc::new(mirrored(right)), right: Arc::new(mirrored(left)) },
+        Policy::Threshold(k, subs) => Policy::Threshold(*k, subs.iter().rev().map(mirrored).collect()),
+        other => other.clone(),
+    }
+}
+
 #[test]
 fn c16_policy_sort_replay() {
     let mut fails = 0;
@@ -65,6 +75,9 @@ fn c16_policy_sort_replay() {
             fails += 1;
         } else if canonical(&p) && once != p {
             println!("CEX: canonical policy {:?} is changed by sorted() into {:?}", p, once);
+            fails += 1;
+        } else if mirrored(&p).sorted() != once {
+            println!("CEX: {:?} sorts to {:?} but the same policy with its children reordered, {:?}, sorts to {:?}", p, once, mirrored(&p), mirrored(&p).sorted());
             fails += 1;
         }
         if fails >= 5 {
